@@ -114,6 +114,9 @@ def jobs(prop, tier):
                    models=['string', 'libc', 'sstream', 'posix', 'containers'], solver=PORTFOLIO)
         J.append(Job('C15', 'key', 'C15_key.cpp', defs={'IDMAX': 4, 'ENV_NOLOG': None}, unwind=7, shape='K', timeout=900 if T else 250,
                      bounds='two registrations with arbitrary source (any/master), destination, PB, SB, ID length 0..4 and ID bytes', **BUS))
+        # harness/C15_lookup.cpp (real setAnswer x2 + getAnswer on a partially constructed handler) is not registered: symex finishes
+        # (35 k steps) but CBMC's propositional post-processing needs > 15 GB and no verdict within the cap, with tight unwinding
+        # and with fixed-size operator new alike (DESIGN 8.5)
     if prop == 'C18':
         M = ['string', 'libc', 'sstream', 'posix']
         for l in ((2, 3, 4, 5, 6) if T else (2, 3, 4)):
